@@ -243,6 +243,20 @@ PF_IMPORTS = ('From DV Require Import Base.MachInt Base.Corr Model.ChunkModel Ge
 MAX_RECORDED = 4000      # more recorded invocations than any legitimate plan of the generators below -> treated like OVERRUN
 
 
+def harness_copy(ctx):
+    """a private copy of the harness binary (dv keeps one cached binary per harness name; a concurrent check that builds it for another
+    repo hash removes the shared one while this check is still using it)"""
+    import shutil
+    for _ in range(3):
+        try:
+            dst = os.path.join(ctx.work, 'h_parfor.bin')
+            shutil.copy2(harness(), dst)
+            return dst
+        except (IOError, OSError):
+            continue
+    return harness()
+
+
 def machine_l3(exe):
     rc, txt = dv.sh([exe], inp='l3\n', timeout=60)
     m = re.search(r'l3 (\d+)', txt)
